@@ -109,8 +109,14 @@ def generic_argument_without_constructor(spec, m):
     return False
 
 
+def singleton_by_value_into_generic_constructor(spec, m):
+    singles = set(t for t, ty in spec["types"].items() if ty.get("lc") == "singleton")
+    return any(c.get("generic_param") and any(mo == "val" and t in singles for (t, mo) in c["ins"]) for c in spec["ctors"].values())
+
+
 # (substring of the normalised panic location, substring of the message) -> (pattern name, predicate)
 KNOWN_PANIC_PATTERNS = [
+    ("compiler/codegen_utils.rs", "There is no variable with type", "singleton_by_value_into_generic_constructor", singleton_by_value_into_generic_constructor),
     ("processing_pipeline/codegen.rs", "Could not find a binding for input type", "generic_argument_without_constructor", generic_argument_without_constructor),
     ("call_graph/codegen.rs", "did not visit all nodes", "fallible_mw_graph_and_observers", fallible_mw_graph_and_observers),
     ("borrow_checker/assign_order.rs", "node ordering is stuck", "cin_value_moved_into_constructor", cin_value_moved_into_constructor),
